@@ -9,7 +9,7 @@ VERIF="$(cd "$(dirname "$0")/.." && pwd)"
 SCR="$(mktemp -d /var/tmp/nvseed.XXXXXX)"
 trap 'rm -rf "$SCR"' EXIT
 (cd /repo && tar --exclude=./_build --exclude=./.git -cf - .) | tar -xf - -C "$SCR"
-(cd "$SCR" && git init -q . && git apply --whitespace=nowarn "$PATCH") || { echo "PATCH DOES NOT APPLY"; exit 2; }
+(cd "$SCR" && git init -q . && { git apply --whitespace=nowarn "$PATCH" 2>/dev/null || patch -p1 --fuzz=3 --no-backup-if-mismatch < "$PATCH" >/dev/null; }) || { echo "PATCH DOES NOT APPLY"; exit 2; }
 cd "$VERIF"
 for id in "$@"; do
   start=$(date +%s)
